@@ -1,6 +1,8 @@
 SPECIFICATION Spec
 CONSTANTS
   Blocks <- MC_Blocks
+  FirstBlocks <- MC_FirstBlocks
+  SecondBlocks <- MC_SecondBlocks
   Tier = "tiny"
   MathNames <- MC_MathNames
   ResidChoices = {TRUE}
@@ -12,6 +14,8 @@ INVARIANT TypeOK
 INVARIANT C20_EachVariableOnce
 INVARIANT C20_ReductionKeepsEquations
 INVARIANT C20_IteratorEvaluatesEquations
+INVARIANT C20_AttributesFromCurrentBlock
+INVARIANT C20_VectorIsTuple
 INVARIANT C20_Closed
 INVARIANT C20_ResolvesSolverNames
 INVARIANT C20_LoopStateOwn
